@@ -101,16 +101,39 @@ def draw(gen):
         return None
     victim_is_server = (victim == 's')
     frames = []
-    if rng.random() < gen.P.get('adv_plausible', 0.55) and not vt.closed:
-        frames = _plausible(gen, vt, victim_is_server, stub)
+    tame = getattr(gen, 'iter', 0) < getattr(gen, 'adv_wild_from', 0)
+    if (tame or rng.random() < gen.P.get('adv_plausible', 0.55)) and not vt.closed:
+        frames = []
+        for _ in range(4):
+            frames = _plausible(gen, vt, victim_is_server, stub)
+            if frames:
+                break
         if frames:
             raw = b''.join(f.serialize() for f in frames)
+            # next in line for the victim, so that it arrives in the state it was made for
+            if spans:
+                pos = spans[0][0]
             return {'ev': 'inject', 'dir': d, 'pos': pos, 'bytes': raw}
+        if tame:
+            return None
         frames = []
     t = rng.choice([C.DATA, C.DATA, C.HEADERS, C.HEADERS, C.HEADERS, C.PRIORITY, C.RST_STREAM, C.SETTINGS,
                     C.PUSH_PROMISE, C.PING, C.GOAWAY, C.WINDOW_UPDATE, C.WINDOW_UPDATE, C.CONTINUATION,
                     C.ALTSVC, rng.choice([11, 12, 0x20, 0xff])])
     sid = _sid(gen, vt, victim_is_server)
+    if t == C.CONTINUATION and rng.random() < 0.6:
+        closed = [s.sid for s in vt.streams.values() if s.state == 'closed']
+        if closed:
+            sid = rng.choice(closed)      # naked CONTINUATION on a closed (maybe collected) stream
+    if not victim_is_server:
+        hcr = [s.sid for s in vt.streams.values() if s.state == 'hcR' and s.mine]
+        if hcr and rng.random() < 0.12:
+            t = C.PUSH_PROMISE            # a promise on a stream the (stub) server has already ended
+            sid = rng.choice(hcr)
+        elif t == C.PUSH_PROMISE and rng.random() < 0.4:
+            hc = [s.sid for s in vt.streams.values() if s.state in ('hcL', 'open') and s.mine]
+            if hc:
+                sid = rng.choice(hc)
     if rng.random() < 0.03:
         t = C.GOAWAY
     if t == C.DATA:
